@@ -429,7 +429,8 @@ func c14Run(j vs.Job) *vs.JobResult {
 		base := p.W[0]
 		w0, res0 := runWorld(base, vs.Config{}, nil, nil, nil)
 		if v := c14CheckHistory(w0, res0); v != "" {
-			r.ToolErr = "the reference run is not clean: " + v
+			// the uncut history is itself one of the histories of part (ii)
+			r.Violate("c14:exitcut-reference:"+firstWords(v, 10), base.String()+": "+v, base)
 			return r
 		}
 		list = nil
